@@ -2,10 +2,12 @@ use crate::report::Report;
 use crate::Outcome;
 use serde_json::Value;
 
+pub mod c04;
 pub mod c14;
 
 pub fn run(id: &str, thorough: bool) -> Option<Outcome> {
     match id {
+        "C04" => Some(c04::run(thorough)),
         "C14" => Some(c14::run(thorough)),
         _ => None,
     }
@@ -13,6 +15,7 @@ pub fn run(id: &str, thorough: bool) -> Option<Outcome> {
 
 pub fn replay(id: &str, ex: &Value) -> Option<Report> {
     match id {
+        "C04" => Some(c04::replay(ex)),
         "C14" => Some(c14::replay(ex)),
         _ => None,
     }
